@@ -33,7 +33,10 @@
 #include <memory>
 #include <unistd.h>
 
+#include <boost/random/normal_distribution.hpp>
+#include <boost/random/exponential_distribution.hpp>
 #include <ompl/util/RandomNumbers.h>
+#include <ompl/util/ProlateHyperspheroid.h>
 #include <ompl/util/Console.h>
 #include <ompl/base/SpaceInformation.h>
 #include <ompl/base/ProblemDefinition.h>
@@ -43,6 +46,9 @@
 #include <ompl/base/spaces/SE2StateSpace.h>
 #include <ompl/base/objectives/PathLengthOptimizationObjective.h>
 #include <ompl/base/goals/GoalState.h>
+#include <ompl/base/goals/GoalStates.h>
+#include <ompl/base/terminationconditions/IterationTerminationCondition.h>
+#include <ompl/tools/thunder/SPARSdb.h>
 #include <ompl/geometric/PathGeometric.h>
 #include <ompl/geometric/planners/rrt/RRT.h>
 #include <ompl/geometric/planners/rrt/RRTConnect.h>
@@ -104,6 +110,33 @@ namespace oc = ompl::control;
 namespace om = ompl::multilevel;
 
 // ------------------------------------------------------------------------------------------------ rng protocol mode
+struct Fnv
+{
+    uint64_t h = 1469598103934665603ULL;
+    void byte(unsigned char c)
+    {
+        h ^= c;
+        h *= 1099511628211ULL;
+    }
+    void u64(uint64_t v)
+    {
+        for (int i = 0; i < 8; ++i)
+            byte((v >> (8 * i)) & 0xff);
+    }
+    void dbl(double d)
+    {
+        uint64_t u;
+        std::memcpy(&u, &d, 8);
+        u64(u);
+    }
+    std::string hex() const
+    {
+        char b[32];
+        snprintf(b, sizeof b, "%016lx", (unsigned long)h);
+        return b;
+    }
+};
+
 struct LogCapture : ompl::msg::OutputHandler
 {
     std::string last = "silent";
@@ -174,7 +207,27 @@ static int rngMode()
                 return false;
             return *x <= *y && *x >= -1000000000LL && *y <= 1000000000LL;
         };
-        if (op == "clock" && t.size() == 1)
+        // uniformInt accepts the whole int range (upper bound INT_MAX is the boundary fixed by /repo ebb35683a)
+        auto intsFull = [&](const std::string &a, const std::string &b) {
+            auto x = vp::parseInt(a), y = vp::parseInt(b);
+            if (!x || !y || a[0] == '+' || b[0] == '+')
+                return false;
+            return *x <= *y && *x >= -2147483648LL && *y <= 2147483647LL;
+        };
+        if (op == "boosttables" && t.size() == 1)
+        {
+            Fnv h;
+            for (int i = 0; i < 129; ++i)
+                h.dbl(boost::random::detail::normal_table<double>::table_x[i]);
+            for (int i = 0; i < 129; ++i)
+                h.dbl(boost::random::detail::normal_table<double>::table_y[i]);
+            for (int i = 0; i < 257; ++i)
+                h.dbl(boost::random::detail::exponential_table<double>::table_x[i]);
+            for (int i = 0; i < 257; ++i)
+                h.dbl(boost::random::detail::exponential_table<double>::table_y[i]);
+            std::cout << "tables=" << h.h << "\n";
+        }
+        else if (op == "clock" && t.size() == 1)
             std::cout << "clock=" << clock0 << "\n";
         else if (op == "getseed" && t.size() == 1)
             std::cout << first() << "\n";
@@ -192,6 +245,17 @@ static int rngMode()
         else if (op == "newl" && t.size() == 2 && vp::parseNat(t[1]))
         {
             rngs.emplace_back(new ompl::RNG(*vp::parseNat(t[1])));
+            std::cout << "id=" << rngs.size() - 1 << " seed=" << rngs.back()->getLocalSeed() << "\n";
+        }
+        else if (op == "copy" && t.size() == 2 && vp::parseNat(t[1]))
+        {
+            ompl::RNG *r = rngOf(t[1]);
+            if (!r)
+            {
+                std::cout << "no-such-rng\n";
+                continue;
+            }
+            rngs.emplace_back(new ompl::RNG(*r));  // implicit copy constructor
             std::cout << "id=" << rngs.size() - 1 << " seed=" << rngs.back()->getLocalSeed() << "\n";
         }
         else if (op == "lseed" && t.size() == 2)
@@ -242,7 +306,7 @@ static int rngMode()
             withRng(t[1], [&](ompl::RNG &r) {
                 return vp::bits(r.halfNormalReal(*vp::parseBits(t[2]), *vp::parseBits(t[3]), *vp::parseBits(t[4])));
             });
-        else if (op == "uint" && t.size() == 4 && intsOk(t[2], t[3]))
+        else if (op == "uint" && t.size() == 4 && intsFull(t[2], t[3]))
             withRng(t[1], [&](ompl::RNG &r) {
                 return std::to_string(r.uniformInt((int)*vp::parseInt(t[2]), (int)*vp::parseInt(t[3])));
             });
@@ -251,6 +315,71 @@ static int rngMode()
                 return std::to_string(
                     r.halfNormalInt((int)*vp::parseInt(t[2]), (int)*vp::parseInt(t[3]), *vp::parseBits(t[4])));
             });
+        else if ((op == "phs" || op == "phss") && t.size() >= 4 && vp::parseNat(t[2]) && *vp::parseNat(t[2]) >= 2 &&
+                 *vp::parseNat(t[2]) <= 16 && vp::parseBits(t[3]))
+        {
+            // uniformProlateHyperspheroid[Surface]: foci (-0.5,0,…), (0.5,0,…), transverse diameter d.  The extra tokens
+            // are the unit-ball / sphere point the MODEL computed; this line reads "pre <those bits>" exactly when the
+            // real output equals ProlateHyperspheroid::transform of that point.
+            const unsigned n = *vp::parseNat(t[2]);
+            if (!vp::parseNat(t[1]))
+            {
+                std::cout << "bad-op\n";
+                continue;
+            }
+            ompl::RNG *r = rngOf(t[1]);
+            if (!r)
+            {
+                std::cout << "no-such-rng\n";
+                continue;
+            }
+            std::vector<double> f1(n, 0.0), f2(n, 0.0), out(n), pre, out2(n);
+            f1[0] = -0.5;
+            f2[0] = 0.5;
+            auto phs = std::make_shared<ompl::ProlateHyperspheroid>(n, f1.data(), f2.data());
+            phs->setTransverseDiameter(*vp::parseBits(t[3]));
+            if (op == "phs")
+                r->uniformProlateHyperspheroid(phs, out.data());
+            else
+                r->uniformProlateHyperspheroidSurface(phs, out.data());
+            bool ok = t.size() == 4 + n;
+            for (size_t i = 4; ok && i < t.size(); ++i)
+            {
+                auto b = vp::parseBits(t[i]);
+                if (!b)
+                    ok = false;
+                else
+                    pre.push_back(*b);
+            }
+            if (ok)
+            {
+                phs->transform(pre.data(), out2.data());
+                ok = std::memcmp(out.data(), out2.data(), n * sizeof(double)) == 0;
+            }
+            if (ok)
+                std::cout << "pre " << joinBits(pre) << "\n";
+            else
+                std::cout << "out " << joinBits(out) << (pre.size() == n ? " transform(pre) " + joinBits(out2) : std::string(" (no pre given)"))
+                          << "\n";
+        }
+        else if (op == "shuffle" && t.size() == 3 && vp::parseNat(t[1]) && vp::parseNat(t[2]))
+        {
+            if (*vp::parseNat(t[2]) > 5000)
+            {
+                std::cout << "bad-op\n";
+                continue;
+            }
+            withRng(t[1], [&](ompl::RNG &r) {
+                std::vector<int> v(*vp::parseNat(t[2]));
+                for (size_t i = 0; i < v.size(); ++i)
+                    v[i] = (int)i;
+                r.shuffle(v.begin(), v.end());
+                std::string s = "perm";
+                for (int x : v)
+                    s += " " + std::to_string(x);
+                return s;
+            });
+        }
         else if (op == "sphere" && t.size() == 3 && vp::parseNat(t[2]) && *vp::parseNat(t[2]) >= 1 &&
                  *vp::parseNat(t[2]) <= 64)
             withRng(t[1], [&](ompl::RNG &r) {
@@ -273,32 +402,6 @@ static int rngMode()
 }
 
 // ------------------------------------------------------------------------------------------------ planner mode
-struct Fnv
-{
-    uint64_t h = 1469598103934665603ULL;
-    void byte(unsigned char c)
-    {
-        h ^= c;
-        h *= 1099511628211ULL;
-    }
-    void u64(uint64_t v)
-    {
-        for (int i = 0; i < 8; ++i)
-            byte((v >> (8 * i)) & 0xff);
-    }
-    void dbl(double d)
-    {
-        uint64_t u;
-        std::memcpy(&u, &d, 8);
-        u64(u);
-    }
-    std::string hex() const
-    {
-        char b[32];
-        snprintf(b, sizeof b, "%016lx", (unsigned long)h);
-        return b;
-    }
-};
 
 struct Counters
 {
@@ -717,6 +820,11 @@ static const std::map<std::string, Factory> &factories()
              pl->setIntermediateStates(true);
              return pl;
          }},
+        {"PRM:construct", geo<og::PRM>()},
+        {"PRMstar:construct", geo<og::PRMstar>()},
+        {"SPARS:construct", geo<og::SPARS>()},
+        {"SPARStwo:construct", geo<og::SPARStwo>()},
+        {"SPARSdb:addpath", geo<ompl::geometric::SPARSdb>()},
         {"control::RRT", ctl<oc::RRT>()},
         {"control::SST", ctl<oc::SST>()},
         {"control::EST", ctl<oc::EST>()},
@@ -863,18 +971,159 @@ static int planMode()
             std::cout << "not-applicable\n";
             continue;
         }
-        ob::PlannerStatus st;
-        std::string err;
+        // options (all default off): ptc=iter (ompl::base::IterationTerminationCondition(budget) instead of the evaluation
+        // counter), hist=ss (solve, then solve again with a fresh budget), hist=scs (solve, clear(), solve), starts=2 (two
+        // start states and a two-state goal), params=alt (non-default range / goal bias / validity resolution)
+        const std::string hist = a.count("hist") ? a["hist"] : "s";
+        const bool iterPtc = a.count("ptc") && a["ptc"] == "iter";
+        std::string err, line_out;
+        auto report = [&](ob::PlannerStatus st) {
+            std::string path = "none";
+            if (ob::PathPtr sp = p.pdef->getSolutionPath())
+            {
+                std::vector<const ob::State *> states;
+                Fnv extra;
+                if (auto *g = dynamic_cast<og::PathGeometric *>(sp.get()))
+                    for (ob::State *s : g->getStates())
+                        states.push_back(s);
+                else if (auto *cp = dynamic_cast<oc::PathControl *>(sp.get()))
+                {
+                    for (ob::State *s : cp->getStates())
+                        states.push_back(s);
+                    for (oc::Control *u : cp->getControls())
+                    {
+                        const double *v = u->as<oc::RealVectorControlSpace::ControlType>()->values;
+                        extra.dbl(v[0]);
+                        extra.dbl(v[1]);
+                    }
+                    for (double d : cp->getControlDurations())
+                        extra.dbl(d);
+                }
+                path = std::to_string(states.size()) + ":" + hashStates(p.si->getStateSpace(), states, false) + ":" +
+                       extra.hex();
+            }
+            std::string pdata = "none";
+            try
+            {
+                ob::PlannerData pd(p.si);
+                planner->getPlannerData(pd);
+                std::vector<const ob::State *> vs;
+                for (unsigned i = 0; i < pd.numVertices(); ++i)
+                    vs.push_back(pd.getVertex(i).getState());
+                // multilevel planners report vertices of several spaces; hash them only when they belong to p.si
+                const bool sameSpace = p.sis.size() <= 1;
+                pdata = std::to_string(pd.numVertices()) + ":" + std::to_string(pd.numEdges()) + ":" +
+                        (sameSpace ? hashStates(p.si->getStateSpace(), vs, false) : std::string("-")) + ":" +
+                        (sameSpace ? hashStates(p.si->getStateSpace(), vs, true) : std::string("-"));
+            }
+            catch (const std::exception &e)
+            {
+                pdata = "exception";
+            }
+            std::ostringstream os;
+            os << "status=" << (int)(ob::PlannerStatus::StatusType)st << " approx=" << (p.pdef->hasApproximateSolution() ? 1 : 0)
+               << " evals=" << c.evals << " polls=" << c.polls << " qhash=" << c.q.hex() << " path=" << path
+               << " pdata=" << pdata;
+            return os.str();
+        };
         try
         {
+            if (a.count("starts") && a["starts"] == "2")
+            {
+                // second start and a two-state goal, derived from the first ones by moving the two leading coordinates
+                auto space = p.si->getStateSpace();
+                std::vector<double> r;
+                ob::ScopedState<> s2(space), g1(space), g2(space);
+                space->copyToReals(r, p.pdef->getStartState(0));
+                r[0] = 0.2;
+                r[1] = 0.15;
+                space->copyFromReals(s2.get(), r);
+                p.pdef->addStartState(s2);
+                const ob::State *gs = p.pdef->getGoal()->as<ob::GoalState>()->getState();
+                space->copyToReals(r, gs);
+                space->copyFromReals(g1.get(), r);
+                r[0] = 0.92;
+                r[1] = 0.8;
+                space->copyFromReals(g2.get(), r);
+                auto goals = std::make_shared<ob::GoalStates>(p.si);
+                goals->addState(g1);
+                goals->addState(g2);
+                goals->setThreshold(0.05);
+                p.pdef->setGoal(goals);
+            }
+            if (a.count("params") && a["params"] == "alt")
+            {
+                for (auto &s : p.sis)
+                    s->setStateValidityCheckingResolution(0.013);
+                if (planner->params().hasParam("range"))
+                    planner->params().setParam("range", "0.07");
+                if (planner->params().hasParam("goal_bias"))
+                    planner->params().setParam("goal_bias", "0.2");
+            }
             planner->setProblemDefinition(p.pdef);
             planner->setup();
-            const unsigned long cap = 2UL * c.budget + 2000UL;
-            ob::PlannerTerminationCondition ptc([&c, cap] {
-                ++c.polls;
-                return c.evals >= c.budget || c.polls >= cap;
-            });
-            st = planner->solve(ptc);
+            for (size_t phase = 0; phase < hist.size(); ++phase)
+            {
+                if (hist[phase] == 'c')
+                {
+                    planner->clear();
+                    p.pdef->clearSolutionPaths();
+                    line_out += " || cleared";
+                    continue;
+                }
+                const unsigned long budget = c.evals + *vp::parseNat(a["budget"]);
+                const unsigned long cap = c.polls + 2UL * *vp::parseNat(a["budget"]) + 2000UL;
+                c.budget = budget;
+                ob::PlannerStatus st;
+                if (a["planner"].size() > 10 && a["planner"].substr(a["planner"].size() - 10) == ":construct")
+                {
+                    // the roadmap planners' single-threaded entry point (solve() starts a second thread)
+                    ob::PlannerTerminationCondition ptc([&c, budget, cap] {
+                        ++c.polls;
+                        return c.evals >= budget || c.polls >= cap;
+                    });
+                    if (auto *prm = dynamic_cast<og::PRM *>(planner.get()))
+                        prm->constructRoadmap(ptc);
+                    else if (auto *sp = dynamic_cast<og::SPARS *>(planner.get()))
+                        sp->constructRoadmap(ptc);
+                    else if (auto *s2 = dynamic_cast<og::SPARStwo *>(planner.get()))
+                        s2->constructRoadmap(ptc);
+                }
+                else if (a["planner"] == "SPARSdb:addpath")
+                {
+                    // tools/thunder/SPARSdb::addPathToRoadmap: inserts the states of a path in shuffled order
+                    ob::PlannerTerminationCondition ptc([&c, budget, cap] {
+                        ++c.polls;
+                        return c.evals >= budget || c.polls >= cap;
+                    });
+                    og::PathGeometric path(p.si);
+                    ob::ScopedState<> s(p.si->getStateSpace());
+                    std::vector<double> r;
+                    p.si->getStateSpace()->copyToReals(r, p.pdef->getStartState(0));
+                    for (int i = 0; i < 40; ++i)
+                    {
+                        r[0] = 0.1 + 0.002 * i;
+                        r[1] = 0.05 + 0.0225 * i;
+                        p.si->getStateSpace()->copyFromReals(s.get(), r);
+                        path.append(s.get());
+                    }
+                    dynamic_cast<ompl::geometric::SPARSdb &>(*planner).addPathToRoadmap(ptc, path);
+                }
+                else if (iterPtc)
+                {
+                    ob::IterationTerminationCondition itc(*vp::parseNat(a["budget"]));
+                    st = planner->solve(itc);
+                }
+                else
+                {
+                    ob::PlannerTerminationCondition ptc([&c, budget, cap] {
+                        ++c.polls;
+                        return c.evals >= budget || c.polls >= cap;
+                    });
+                    st = planner->solve(ptc);
+                }
+                line_out += (phase ? " || " : "") + report(st);
+            }
         }
         catch (const std::exception &e)
         {
@@ -885,56 +1134,10 @@ static int planMode()
             for (char &ch : err)
                 if (ch == ' ' || ch == '\n')
                     ch = '_';
-            std::cout << "exception " << err << "\n";
+            std::cout << "exception " << err << (line_out.empty() ? "" : " after " + line_out) << "\n";
             continue;
         }
-        std::string path = "none";
-        if (ob::PathPtr sp = p.pdef->getSolutionPath())
-        {
-            std::vector<const ob::State *> states;
-            Fnv extra;
-            if (auto *g = dynamic_cast<og::PathGeometric *>(sp.get()))
-                for (ob::State *s : g->getStates())
-                    states.push_back(s);
-            else if (auto *cp = dynamic_cast<oc::PathControl *>(sp.get()))
-            {
-                for (ob::State *s : cp->getStates())
-                    states.push_back(s);
-                for (oc::Control *u : cp->getControls())
-                {
-                    const double *v = u->as<oc::RealVectorControlSpace::ControlType>()->values;
-                    extra.dbl(v[0]);
-                    extra.dbl(v[1]);
-                }
-                for (double d : cp->getControlDurations())
-                    extra.dbl(d);
-            }
-            path = std::to_string(states.size()) + ":" + hashStates(p.si->getStateSpace(), states, false) + ":" +
-                   extra.hex();
-        }
-        std::string pdata = "none";
-        try
-        {
-            ob::PlannerData pd(p.si);
-            planner->getPlannerData(pd);
-            std::vector<const ob::State *> vs;
-            bool sameSpace = true;
-            for (unsigned i = 0; i < pd.numVertices(); ++i)
-                vs.push_back(pd.getVertex(i).getState());
-            // multilevel planners report vertices of several spaces; hash them only when they belong to p.si
-            if (p.sis.size() > 1)
-                sameSpace = false;
-            pdata = std::to_string(pd.numVertices()) + ":" + std::to_string(pd.numEdges()) + ":" +
-                    (sameSpace ? hashStates(p.si->getStateSpace(), vs, false) : std::string("-")) + ":" +
-                    (sameSpace ? hashStates(p.si->getStateSpace(), vs, true) : std::string("-"));
-        }
-        catch (const std::exception &e)
-        {
-            pdata = "exception";
-        }
-        std::cout << "status=" << (int)(ob::PlannerStatus::StatusType)st << " approx="
-                  << (p.pdef->hasApproximateSolution() ? 1 : 0) << " evals=" << c.evals << " polls=" << c.polls
-                  << " qhash=" << c.q.hex() << " path=" << path << " pdata=" << pdata << "\n";
+        std::cout << line_out << "\n";
     }
     return 0;
 }
@@ -1200,7 +1403,7 @@ int main()
     if (!vp::readLine(line))
         return 2;
     auto hdr = vp::tokens(line);
-    if (hdr.size() == 2 && hdr[0] == "rng" && hdr[1].rfind("clock=", 0) == 0)
+    if ((hdr.size() == 2 || (hdr.size() == 3 && hdr[2] == "copies=rebind")) && hdr[0] == "rng" && hdr[1].rfind("clock=", 0) == 0)
         return rngMode();
     if (hdr.size() == 1 && hdr[0] == "plan")
         return planMode();
